@@ -125,6 +125,13 @@ def rule_cpform(ctx: Ctx) -> List[Ob]:
                "t_old": Sc(tcur)}
         for nm, r in ref.items():
             ok, why = equal(K.env[nm], r)
+            if not ok and isinstance(r, Sc):
+                # the floor factor written as a literal (1e-30) instead of through a local name
+                lits = [x for x in getattr(K.env[nm], "e", sp.Integer(0)).atoms(sp.Rational, sp.Float) if 0 < abs(x) < sp.Rational(1, 10**20)]
+                for lit in lits:
+                    ok, why = equal(K.env[nm], Sc(r.e.subs(eps, lit)))
+                    if ok:
+                        break
             obs.append(ob("CPFORM", f"breakpoint update of {nm} matches Algorithm CP ({tag})", f, lp, ok,
                           f"after one breakpoint {nm} = {K.env[nm]}" + ("" if ok else f"; reference {r}; {why}"),
                           construct=f"loop[{tag}] {nm}"))
@@ -220,10 +227,17 @@ def rule_cpform(ctx: Ctx) -> List[Ob]:
         rebound = any(isinstance(x, ast.Name) and x.id == lp.target.id and isinstance(x.ctx, ast.Store) for b in lp.body for x in ast.walk(b))
         okc = it_src == "sorted_t_idx" and not rebound and not any(isinstance(x, ast.Continue) for b in lp.body for x in ast.walk(b)) and not ctr_defs
     else:
-      guard_src = src(fex.expand_at(lp.test, lp.test)).replace(" ", "")
+      gexp = fex.expand_at(lp.test, lp.test)
+      guard_src = src(gexp).replace(" ", "")
+      # the bound test, possibly in conjunction with "not yet found" flags (a flag can only end the walk earlier)
+      from ..core import canon_in as _ci
+      conj = gexp.values if isinstance(gexp, ast.BoolOp) and isinstance(gexp.op, ast.And) else [gexp]
+      bound_ok = any(_ci(v_, "_i < len(sorted_t_idx)") for v_ in conj) and \
+          all(_ci(v_, "_i < len(sorted_t_idx)") or isinstance(v_, ast.Name) or
+              (isinstance(v_, ast.UnaryOp) and isinstance(v_.op, ast.Not) and isinstance(v_.operand, ast.Name)) for v_ in conj)
       okc = len(ctr_defs) == 2 and isinstance(ctr_defs[0], ast.Assign) and isinstance(ctr_defs[0].value, ast.Constant) and ctr_defs[0].value.value == 0 \
         and isinstance(ctr_defs[1], ast.AugAssign) and isinstance(ctr_defs[1].op, ast.Add) and isinstance(ctr_defs[1].value, ast.Constant) \
-        and ctr_defs[1].value.value == 1 and ctr_defs[1] in lp.body and guard_src in ("_i<len(sorted_t_idx)", "len(sorted_t_idx)>_i")
+        and ctr_defs[1].value.value == 1 and ctr_defs[1] in lp.body and bound_ok
     obs.append(ob("CPFORM", "breakpoints are consumed one per iteration from the first", f, ctr_defs[0] if ctr_defs else lp, okc,
                   f"counter definitions {[short(x) for x in ctr_defs]}, guard `{guard_src}`", construct="_i = 0; while _i < len(list): ... _i += 1"))
     # the no-breakpoint shortcut is taken exactly when the list of positive breakpoints is empty
@@ -473,12 +487,23 @@ def rule_filterwalk(ctx: Ctx) -> List[Ob]:
             rng, rev = ast.Call(func=rng.func, args=[rng.args[0].left], keywords=[]), True
         okr = isinstance(rng, ast.Call) and dotted(rng.func) == "range" and len(rng.args) == 1 and isinstance(lp.target, ast.Name)
         n_it = K.ev(rng.args[0]) if okr else None
+        first = None
+        if not okr and isinstance(rng, ast.Call) and dotted(rng.func) == "range" and len(rng.args) == 3 and src(rng.args[2]) == "-1" \
+                and isinstance(lp.target, ast.Name) and not rev:
+            # range(a, b, -1): a, a-1, ..., b+1  -- a - b visits, the i-th visit is a - i
+            try:
+                a_, b_ = K.ev(rng.args[0]), K.ev(rng.args[1])
+                n_it = Sc(sp.expand(a_.e - b_.e))
+                first = a_
+                okr = True
+            except AnalysisError:
+                okr = False
         ok = okr and equal(n_it, Sc(L - 1))[0]
         obs.append(ob("FILTERWALK", "one visit per stored point older than the newest", f, lp, bool(ok),
                       f"range({n_it.e if n_it is not None else '?'}) with L = len({Xp})", construct="walk over the older points: count"))
         okk, v = False, None
         if okr:
-            K.env[lp.target.id] = Sc(n_it.e - 1 - i) if rev else Sc(i)
+            K.env[lp.target.id] = Sc(first.e - i) if first is not None else Sc(n_it.e - 1 - i) if rev else Sc(i)
             for s in lp.body:
                 if isinstance(s, (ast.Assign, ast.AnnAssign)) and isinstance((s.targets[0] if isinstance(s, ast.Assign) else s.target), ast.Name):
                     try:
